@@ -15,7 +15,7 @@ Structural clauses decided (necessary conditions of the property):
 """
 from absint import ValueDomain, Explorer, State, TOP, ZERO, ONE, NONZERO, AVal, fin, Budget
 from callgraph import CallGraph
-from facts import walk, strip, strip_pre, const_value, show, lvalue_key, macro_of, key_str
+from facts import walk, strip, strip_pre, const_value, show, lvalue_key, macro_of, key_str, canon
 from frontend import AnalysisBroken
 import cfg
 import patterns
@@ -182,6 +182,7 @@ def check_sync_and_max(ctx, prog):
         if macro_of(a[4]) == "MPI_MAX" and macro_of(a[0]) == "MPI_IN_PLACE":
             arr = lvalue_key(a[1])
             apos = (b.id, i)
+            acount = const_value(a[2])
     ctx.require(arr is not None, "req_commit: in-place MPI_Allreduce(MPI_MAX) not found")
     slot = None
     for b, i, e in fn.elements():
@@ -195,7 +196,10 @@ def check_sync_and_max(ctx, prog):
                     lvalue_key(r["b"]) == arr and cfg.pos_dominates(fn, apos, (b.id, i)):
                 if slot is not None and const_value(r["i"]) == slot:
                     ok_load = True
-    if ok_store and ok_load:
+    if ok_store and ok_load and (acount is None or slot is None or acount <= slot):
+        ctx.fail("R4.nr.max", "req_commit", "do_io-count", "newnumrecs travels in slot %s of the array, but the MPI_MAX reduction covers "
+                 "%s element(s): the new record count is not agreed among the processes" % (slot, acount), fn=fn, line=fn.line)
+    elif ok_store and ok_load:
         ctx.ok("R4.nr.max", "req_commit:do_io", "newnumrecs enters slot %s of the MAX reduction and is read back "
                "from the same slot" % slot)
     else:
@@ -363,6 +367,101 @@ def check_points(ctx, prog):
                  fn=fn, line=fn.line)
 
 
+def _is_max_over(rhs, lhs_text):
+    """rhs is `A > B ? A : B` (any of > >= < <=, operands in either order) with the stored-to lvalue as one operand"""
+    r = strip_pre(rhs)
+    r = strip(r) if isinstance(r, dict) else r
+    if not isinstance(r, dict) or r.get("k") != "cond":
+        return False
+    c = strip_pre(r["c"])
+    if not isinstance(c, dict) or c.get("k") != "bin" or c.get("op") not in (">", ">=", "<", "<="):
+        return False
+    A, B = canon(c["a"]), canon(c["b"])
+    ta, tb = canon(r["a"]), canon(r["b"])
+    if {A, B} != {ta, tb} or lhs_text not in (A, B):
+        return False
+    greater_first = c["op"] in (">", ">=")
+    # (A > B) ? A : B   or   (A < B) ? B : A
+    return (ta == A) if greater_first else (ta == B)
+
+
+def check_maxrec(ctx, prog):
+    """NC_lead_req.max_rec is what req_commit derives the new record count from.  (a) A store inside a loop (one call
+    covering several segments / records) must accumulate: MAX(old, new), or sit under `new > old`.  (b) The closed forms
+    outside loops equal `highest record index + 1` of (start, count, stride) - evaluated on a small grid."""
+    import concrete
+    n_loop = n_form = 0
+    for fn in prog.all_functions():
+        lps = None
+        for b, i, e in fn.elements():
+            for x in walk(e):
+                if x.get("k") != "asg":
+                    continue
+                l = strip(x["a"])
+                if not (l.get("k") == "mem" and l.get("f") == "max_rec" and l.get("rec") == "NC_lead_req"):
+                    continue
+                ctx.functions_analysed.add((fn.unit.name, fn.name))
+                if lps is None:
+                    lps = patterns.loops(fn)
+                site = "max_rec@%s" % canon(x["b"])[:40]
+                inst = "%s:%s" % (fn.name, site)
+                if any(b.id in lp.body for lp in lps):
+                    n_loop += 1
+                    lt = canon(x["a"])
+                    guarded = False
+                    for d in cfg.dominators(fn).get(b.id, set()):
+                        c = fn.blocks[d].cond
+                        if c is not None and c.get("k") == "bin" and c.get("op") in ("<", ">") and lt in (canon(c["a"]), canon(c["b"])) \
+                                and canon(x["b"]) in (canon(c["a"]), canon(c["b"])):
+                            guarded = True
+                    if x.get("op") == "=" and (_is_max_over(x["b"], lt) or guarded):
+                        ctx.ok("R4.nr.maxrec", inst, "accumulated with MAX over the previous segments")
+                    else:
+                        ctx.fail("R4.nr.maxrec", fn.name, site, "`%s` inside the loop over the call's segments overwrites the highest "
+                                 "record seen so far: a call whose last segment is not its highest leaves the record count too small"
+                                 % show(x)[:70], fn=fn, line=x.get("l", 0), inst=inst)
+                    continue
+                cv = const_value(x["b"])
+                if cv is not None:
+                    if cv == -1:
+                        ctx.ok("R4.nr.maxrec", inst, "initial value -1 (no record touched)", nontrivial=False)
+                    else:
+                        ctx.fail("R4.nr.maxrec", fn.name, site, "max_rec initialised to %s" % cv, fn=fn, line=x.get("l", 0), inst=inst)
+                    continue
+                # closed form over start[0], count[0], stride[0]
+                n_form += 1
+                uses_stride = "stride" in canon(x["b"])
+                bad = None
+                for s0 in range(0, 4):
+                    for c0 in range(1, 5):
+                        for st0 in ((1, 2, 3) if uses_stride else (1,)):
+                            env = {"start[0]": s0, "count[0]": c0, "stride[0]": st0}
+                            try:
+                                got = concrete.evs(x["b"], env)
+                            except (concrete.Unsupported, KeyError) as u:
+                                raise AnalysisBroken("%s: max_rec formula `%s` not interpretable: %s" % (fn.name, canon(x["b"]), u))
+                            want = s0 + (c0 - 1) * st0 + 1
+                            if got != want and bad is None:
+                                bad = (s0, c0, st0, got, want)
+                if bad:
+                    ctx.fail("R4.nr.maxrec", fn.name, site, "start[0]=%d count[0]=%d stride[0]=%d: max_rec = %s, the highest record "
+                             "touched + 1 is %s" % bad, fn=fn, line=x.get("l", 0), inst=inst)
+                else:
+                    ctx.ok("R4.nr.maxrec", inst, "equals highest record index + 1 on the grid")
+    ctx.require(n_loop >= 1 and n_form >= 2, "R4.nr.maxrec: %d loop stores / %d closed forms of NC_lead_req.max_rec found" % (n_loop, n_form))
+    # the consumer: req_commit folds max_rec of every lead request with MAX
+    fn = ctx.need_fn(prog, "req_commit")
+    okc = False
+    for b, i, e in fn.elements():
+        for x in walk(e):
+            if x.get("k") == "asg" and x.get("op") == "=" and "max_rec" in canon(x["b"]) and _is_max_over(x["b"], canon(x["a"])):
+                okc = True
+    if okc:
+        ctx.ok("R4.nr.maxrec", "req_commit:fold", "new record count = MAX over the lead requests' max_rec")
+    else:
+        ctx.fail("R4.nr.maxrec", "req_commit", "fold", "the new record count is not the MAX over the lead requests' max_rec", fn=fn, line=fn.line)
+
+
 def check_snapshot(ctx, prog):
     """ncmpio_redef: the header snapshot (ncp->old = dup_NC) that enddef later compares and fills against is taken after
     the record count has been synchronised (leaving independent mode), never before"""
@@ -381,6 +480,8 @@ def check_snapshot(ctx, prog):
 
 
 def run(ctx):
+    ctx.rule("R4.nr.maxrec", "NC_lead_req.max_rec: accumulated with MAX inside loops, closed forms = highest record + 1 (bounded), "
+             "folded with MAX in req_commit")
     ctx.rule("R4.nr.snapshot", "the redefinition snapshot is taken after the record count is synchronised")
     ctx.rule("R4.nr.sync", "after ncmpio_write_numrecs(ncp,E) every path to the exit makes ncp->numrecs >= E")
     ctx.rule("R4.nr.max", "the written value is Allreduce(MPI_MAX)-derived when nprocs > 1")
@@ -401,5 +502,6 @@ def run(ctx):
     check_erange(ctx, prog)
     check_points(ctx, prog)
     check_snapshot(ctx, prog)
+    check_maxrec(ctx, prog)
     n = r5.run_r5(ctx, prog)
     ctx.min_instances("R5.queue", 30)
